@@ -22,7 +22,7 @@ from sx.values import SymBool, SymStr
 KINDS = ["IBAN", "BIC", "BBAN", "str"]
 BOUNDS = {"quick": {"A": "all 16 kind pairs x text lengths 0..2 each", "B": "valid IBAN (DE, IT with bban attribute), invalid IBAN / BIC / BBAN of symbolic content (length 0..6)"},
           "thorough": {"A": "all 16 kind pairs x text lengths 0..3 each", "B": "as quick, lengths 0..10"}}
-STUBS = ["hash of a symbolic string = uninterpreted function of its content", "object.__reduce_ex__ of a str subclass = (copyreg.__newobj__, (cls, *__getnewargs__()), instance dict)", "pickle = reduce/reconstruct contract (byte format not modelled)"]
+STUBS = ["hash of a symbolic string = uninterpreted function of its content", "object.__reduce_ex__ of a str subclass = (copyreg.__newobj__, (cls, *__getnewargs__()), instance dict), or the class's own __reduce__ / __getstate__ when it overrides them", "pickle = reduce/reconstruct contract (byte format not modelled)"]
 ASSUMPTIONS = ["whitespace / expanding characters in the compared texts: normalisation is Lemma N (C01/C04); comparison semantics do not depend on how the payload was obtained"]
 MAXTASKS = 40
 
